@@ -35,7 +35,7 @@ def run_sym(c, lines, want_img, base=0):
                 r2, _ = c.run_worker("p7sym", [(sc, d[sc])], parallel=1, env=env)
                 if (r2.get(sc) or [{}])[0].get("agree", True):
                     raise vf.FrameworkError("disagreement not reproduced")
-            c.report(key, "; ".join(ev.get("bad") or []), {"case": case, "results": ev.get("results")})
+            c.report(key, "; ".join(ev.get("bad") or []), dict({"case": case, "results": ev.get("results")}, **c.rp("p7sym", d[sc])))
     for sc, dd in deaths.items():
         c.report("death:%s" % dd["kind"], "process died verifying a blob", {"case": json.loads(d[sc]), "death": dd})
     if stats["n"] != len(items) and not c.violations:
